@@ -36,6 +36,11 @@ batch list of the property is `WindowGenerator(ns, NBATCH, 2·SAMPLES_TAPER).fir
 
 The file handles are positioned once (`seek`) and then advance with every `tofile`; the model carries the
 three file positions through the loop exactly like that (they are NOT recomputed per batch).
+The VALUES of a processed batch are not modelled here (a `Cell` only records which batch a byte comes from).  Their
+documented order, used by the harness-level oracle `BatchProcessor` in `harness/props/c06.py`, is: destripe the
+batch (taper, high-pass, ADC shift, spatial filter) → re-attach sync → × saturation mute on the voltage columns →
+`/ sample2volts` per channel (integer units) → whitening `wrot` on the voltage columns → `astype(dtype)`; hence
+`out(wrot=W)[:, :ncv] = out(wrot=None)[:, :ncv] @ W` up to the integer truncations.
 For `NBATCH ≤ 2·SAMPLES_TAPER` the Python stride is ≤ 0 (the loop need not terminate, the kept range
 `[T, N-T)` is empty): the model answers `badStride`, and every theorem carries `2·T < N`.
 -/
